@@ -36,8 +36,9 @@ LEVEL_NOTE = (
     "Gql/Values/*.lean (tied by correspondence); CPython numeric conversions are parameters. Hypotheses (what schema "
     "validation guarantees): defaults valid, OneOf fields without defaults, enum internal values not None, literals with "
     "unique field names; a bare missing variable at a nullable position is 'no value' by design. replace_variables only "
-    "feeds custom scalars and is not modelled; out_name/out_type, fragment variables, non-dict Mappings, non-list iterables, "
-    "non-str dict keys are outside the model."
+    "feeds custom scalars and is not modelled; out_name/out_type, fragment variables and non-str dict keys are outside the model. Non-dict Mappings (MappingProxyType, ChainMap, "
+    "UserDict, user Mapping), dict subclasses and non-list iterables (set, frozenset, generator, deque, user iterable) are "
+    "modelled (PyVal.mapping / dict / iter) and generated at every list and object position."
 )
 TECHNIQUE = "Lean 4 theorems about an executable model + differential correspondence check against the implementation"
 TRUSTED = [
@@ -53,12 +54,14 @@ ASSUMPTIONS = [
     "(counts nodes) differ — reported as an observation, oracle not applied",
     "a literal that is a bare variable without runtime value at a nullable type coerces to Undefined = 'no value' (callers "
     "test this first); excluded from the iff",
+    "a one-shot iterator (generator) is a value for a single call only: get_variable_values traverses a variable twice "
+    "(coercion, then validation), so generators are replaced by re-iterable objects in variable inputs",
     "PyConv laws used by literal_roundtrip: int(str(z)) = z, float(str(f)) = f, float(str(z)) = float(z) (spot-checked by the "
     "round-trip oracle on the implementation)",
 ]
 EXPLANATION = (
     "Theorems: coerce_iff_valid_value_partial, coerce_value_no_crash, validate_silent_path_independent, scalar_value_conforms, "
-    "scalar_literal_conforms, enum_value_conforms, coerced_conforms_nonNull_partial, null_is_valid_nullable, "
+    "scalar_literal_conforms, enum_value_conforms, non_dict_rejected_by_both, wrong_containers_not_dict, coerced_conforms_nonNull_partial, null_is_valid_nullable, "
     "coerce_iff_valid_literal_leaf_partial, literal_roundtrip_text_partial, variables_step_total_partial; full statements kept "
     "as coerce_iff_valid_value_full, coerce_iff_valid_literal_full, coerced_conforms_full, rule_iff_coerce_full, "
     "literal_roundtrip_full, variables_total_full. Correspondence: model vs coerce_input_value, validate_input_value, value_to_literal, coerce_input_literal, "
@@ -83,6 +86,151 @@ U = _U()
 class Obj:
     def __repr__(self):
         return "<Obj>"
+
+
+class CustomMap:  # registered as a Mapping below (a user mapping that is not a dict)
+    def __init__(self, d):
+        self._d = dict(d)
+
+    def __getitem__(self, k):
+        return self._d[k]
+
+    def __iter__(self):
+        return iter(self._d)
+
+    def __len__(self):
+        return len(self._d)
+
+
+import collections as _collections  # noqa: E402
+import collections.abc as _abc  # noqa: E402
+import types as _types  # noqa: E402
+
+
+class CustomMapping(CustomMap, _abc.Mapping):
+    pass
+
+
+class DictSub(dict):
+    """a dict subclass with extra behaviour (accepted wherever a dict is)"""
+
+    extra = "x"
+
+    def __missing__(self, k):
+        return 99
+
+    def describe(self):
+        return "DictSub"
+
+
+class CustomIter:
+    """re-iterable user object with `__iter__` only"""
+
+    def __init__(self, xs):
+        self._xs = list(xs)
+
+    def __iter__(self):
+        return iter(self._xs)
+
+
+class WC:
+    """A container that is neither a plain list/tuple nor a plain dict, kept as plain data and
+    materialised freshly for every call (generators are one-shot)."""
+
+    MAPPINGS = ("mproxy", "chainmap", "userdict", "custommap")  # Mapping but not dict: rejected as input object
+    DICTS = ("odict", "ddict", "dictsub")  # dict subclasses: accepted as input object
+    ITERS = ("set", "frozenset", "gen", "customiter", "deque")  # is_iterable: accepted at list positions
+
+    def __init__(self, kind, payload):
+        self.kind, self.payload = kind, payload
+
+    def __repr__(self):
+        return f"{self.kind}({self.payload!r})"
+
+    def build(self, m):
+        k = self.kind
+        if k == "mproxy":
+            return _types.MappingProxyType(m)
+        if k == "chainmap":
+            return _collections.ChainMap(m)
+        if k == "userdict":
+            return _collections.UserDict(m)
+        if k == "custommap":
+            return CustomMapping(m)
+        if k == "odict":
+            return _collections.OrderedDict(m)
+        if k == "ddict":
+            return _collections.defaultdict(lambda: 7, m)
+        if k == "dictsub":
+            return DictSub(m)
+        if k == "set":
+            return set(m)
+        if k == "frozenset":
+            return frozenset(m)
+        if k == "gen":
+            return (x for x in m)
+        if k == "customiter":
+            return CustomIter(m)
+        return _collections.deque(m)
+
+
+def _hashable_plain(x):
+    return x is None or x is U or isinstance(x, (bool, int, float, str))
+
+
+def wrap_iter(rng, items, allow_gen=True):
+    kinds = ["customiter", "deque"] + (["gen"] if allow_gen else [])
+    if all(_hashable_plain(x) for x in items):
+        kinds += ["set", "frozenset"]
+    return WC(rng.choice(kinds), list(items))
+
+
+def wrap_map(rng, d):
+    r = rng.random()
+    if not all(isinstance(k, str) for k in d):
+        return d
+    return WC(rng.choice(WC.MAPPINGS if r < 0.6 else WC.DICTS), dict(d))
+
+
+def flatten(pv):
+    """the plain payload (for collecting the numbers/strings CPython converts)"""
+    if isinstance(pv, WC):
+        return flatten(pv.payload)
+    if type(pv) in (list, tuple):
+        return [flatten(x) for x in pv]
+    if type(pv) is dict:
+        return {k: flatten(x) for k, x in pv.items()}
+    return pv
+
+
+def has_kind(pv, kinds):
+    if isinstance(pv, WC):
+        return pv.kind in kinds or has_kind(pv.payload, kinds)
+    if type(pv) in (list, tuple):
+        return any(has_kind(x, kinds) for x in pv)
+    if type(pv) is dict:
+        return any(has_kind(x, kinds) for x in pv.values())
+    return False
+
+
+def enc_pv(w, pv):
+    """wire encoding of a generated value (placeholders included): a non-dict Mapping is `M`, a
+    dict subclass `D`, any other iterable `J` with the items one traversal yields"""
+    if isinstance(pv, WC):
+        if pv.kind in WC.MAPPINGS or pv.kind in WC.DICTS:
+            tag = "M" if pv.kind in WC.MAPPINGS else "D"
+            return " ".join([f"{tag} {len(pv.payload)}"] + [cv.enc_str(k) + " " + enc_pv(w, x) for k, x in pv.payload.items()])
+        if pv.kind in ("set", "frozenset"):
+            items = list(w.mat(pv))  # CPython's own iteration order and de-duplication
+            return " ".join([f"J {len(items)}"] + [w.enc(x) for x in items])
+        return " ".join([f"J {len(pv.payload)}"] + [enc_pv(w, x) for x in pv.payload])
+    if type(pv) is list:
+        return " ".join([f"L {len(pv)}"] + [enc_pv(w, x) for x in pv])
+    if type(pv) is tuple:
+        return " ".join([f"P {len(pv)}"] + [enc_pv(w, x) for x in pv])
+    if type(pv) is dict and all(isinstance(k, str) for k in pv):
+        return " ".join([f"D {len(pv)}"] + [cv.enc_str(k) + " " + enc_pv(w, x) for k, x in pv.items()])
+    return w.enc(w.mat(pv))
 
 
 # ----------------------------------------------------------------------------- generation of type maps
@@ -241,7 +389,27 @@ BAD = [
     lambda: {}, lambda: {"a": 1}, lambda: {"f0": 1}, lambda: {"g0": None}, lambda: None, lambda: U, lambda: b"x", lambda: Obj(),
     lambda: [None], lambda: [U], lambda: [[1]], lambda: {"f0": U}, lambda: {"g0": 1, "g1": U}, lambda: {"g0": 1, "g1": None},
     lambda: 2.0**31, lambda: -2147483648.0, lambda: 1e400, lambda: [1, "a", None],
+    # wrong / unusual containers
+    lambda: WC("mproxy", {"f0": 1}), lambda: WC("mproxy", {}), lambda: WC("chainmap", {"g0": 1}), lambda: WC("userdict", {"f0": "a"}),
+    lambda: WC("custommap", {"f1": None}), lambda: WC("odict", {"f0": 1}), lambda: WC("ddict", {"g0": 1}), lambda: WC("dictsub", {}),
+    lambda: WC("set", []), lambda: WC("set", [1]), lambda: WC("frozenset", ["a", "b"]), lambda: WC("gen", [1, 2]), lambda: WC("gen", []),
+    lambda: WC("customiter", [None]), lambda: WC("deque", [1.5]), lambda: WC("set", [1, True, 1.0]), lambda: [WC("mproxy", {"f0": 1})],
+    lambda: {"f0": WC("userdict", {"f0": 1})}, lambda: {"g0": WC("set", [1])}, lambda: WC("mproxy", {"g0": 1, "g1": U}),
+    lambda: bytearray(b"ab"), lambda: "ab",
 ]
+
+
+def strip_gen(pv):
+    """the same value with one-shot generators replaced by re-iterable objects"""
+    if isinstance(pv, WC):
+        return WC("customiter" if pv.kind == "gen" else pv.kind, strip_gen(pv.payload))
+    if type(pv) is list:
+        return [strip_gen(x) for x in pv]
+    if type(pv) is tuple:
+        return tuple(strip_gen(x) for x in pv)
+    if type(pv) is dict:
+        return {k: strip_gen(x) for k, x in pv.items()}
+    return pv
 
 
 def gen_value(rng, tm, t, depth=0, p_bad=0.12):
@@ -259,7 +427,13 @@ def gen_value(rng, tm, t, depth=0, p_bad=0.12):
         if r < 0.2:
             return gen_value(rng, tm, t[1], depth + 1, p_bad)
         items = [gen_value(rng, tm, t[1], depth + 1, p_bad) for _ in range(rng.randint(0, 3))]
-        return tuple(items) if r < 0.3 else items
+        if r < 0.3:
+            return tuple(items)
+        if r < 0.42:
+            return wrap_iter(rng, items)  # set / frozenset / generator / deque / user iterable
+        if r < 0.46:
+            return WC(rng.choice(WC.MAPPINGS), {"f0": 1} if rng.random() < 0.5 else {})  # a Mapping is a list of one
+        return items
     d = tm[t[1]]
     if d[0] in ("sc", "en"):
         v = gen_valid(rng, tm, t, 0)
@@ -279,6 +453,10 @@ def gen_value(rng, tm, t, depth=0, p_bad=0.12):
         items = list(out.items())
         rng.shuffle(items)
         out = dict(items)
+    if rng.random() < 0.14:
+        return wrap_map(rng, out)  # non-dict Mapping (rejected) or dict subclass (accepted)
+    if rng.random() < 0.03:
+        return wrap_iter(rng, list(out.items()) if rng.random() < 0.5 else [out])  # an iterable where an object is expected
     return out
 
 
@@ -293,6 +471,8 @@ def to_lit(tm, t, v):
     """typed, independent conversion of a Python value to literal data"""
     if t is not None and t[0] == "nn":
         return to_lit(tm, t[1], v)
+    if isinstance(v, WC):
+        v = v.payload if isinstance(v.payload, dict) else list(v.payload)
     if v is None or v is U:
         return ("n",)
     if t is not None and t[0] == "l" and not isinstance(v, (list, tuple)):
@@ -447,6 +627,8 @@ class World:
     def mat(self, v):
         if v is U:
             return self.Undefined
+        if isinstance(v, WC):
+            return v.build(self.mat(v.payload))
         if type(v) is list:
             return [self.mat(x) for x in v]
         if type(v) is tuple:
@@ -698,11 +880,11 @@ def _work(args):
         objn = [n for n in names if tm[n][0] == "io"]
         # ------------------------------------------------ variable maps (through the real get_variable_values)
         varmaps = [None]
-        for _ in range(3):
+        for _ in range(8):
             defs = []
             inputs = {}
             for vn in rng.sample(["a", "b", "c", "d"], rng.randint(1, 4)):
-                t = gen_type(rng, names + objn)
+                t = gen_type(rng, names + objn * 4)
                 unknown = rng.random() < 0.05
                 dl = None
                 if rng.random() < 0.35 and not unknown:
@@ -714,7 +896,8 @@ def _work(args):
                 defs.append((vn, None if unknown else t, dl))
                 r = rng.random()
                 if r < 0.6:
-                    inputs[vn] = gen_value(rng, tm, t, 0, 0.08)
+                    # a generator can be traversed once only (coercion, then validation): not a value
+                    inputs[vn] = strip_gen(gen_value(rng, tm, t, 0, 0.08))
                 elif r < 0.65:
                     inputs[vn] = U
 
@@ -764,9 +947,9 @@ def _work(args):
             enc_defs = f"{len(defs)} " + " ".join(
                 f"{cv.enc_str(vn)} {'-' if t is None else enc_type(t)} {'-' if dl is None else enc_lit(dl)}" for vn, t, dl in defs
             )
-            conv = w.conv([minputs], [dl for _, _, dl in defs])
+            conv = w.conv([w.mat(flatten(inputs))], [dl for _, _, dl in defs])
             model_impl = impl if not impl.startswith("errs") else "errs"
-            add(f"gv {conv} {etm} {enc_defs} {w.enc(minputs)}", "get_variable_values", inp, model_impl)
+            add(f"gv {conv} {etm} {enc_defs} {enc_pv(w, inputs)}", "get_variable_values", inp, model_impl)
         # hand-made variable map (values not tied to a type)
         varmaps.append(VariableValues(
             {k: VariableValueSource(GraphQLVariableSignature(k, GraphQLInt, None), v) for k, v in (("a", None), ("b", 1), ("c", "A"))},
@@ -788,14 +971,19 @@ def _work(args):
             t = gen_type(rng, names + objn * 3)
             T = w.ty(t)
             pv = gen_value(rng, tm, t)
-            v = w.mat(pv)
             inp = {"typemap": _show_tm(tm), "type": _show_t(t), "value": _c16.srepr(pv)}
-            rc = _call(coerce_input_value, v, T)
-            ve = valerrs(v, T)
-            rl = _call(value_to_literal, v, T)
+            rc = _call(coerce_input_value, w.mat(pv), T)
+            ve = valerrs(w.mat(pv), T)
+            rl = _call(value_to_literal, w.mat(pv), T)
             rep.evaluations += 3
-            conv = w.conv([v] + ([rc[1]] if rc[0] == "ok" else []))
-            venc = w.enc(v)
+            conv = w.conv([w.mat(flatten(pv))] + ([rc[1]] if rc[0] == "ok" else []))
+            venc = enc_pv(w, pv)
+            if has_kind(pv, WC.MAPPINGS):
+                bump("value:has-non-dict-mapping")
+            if has_kind(pv, WC.ITERS):
+                bump("value:has-non-list-iterable")
+            if has_kind(pv, WC.DICTS):
+                bump("value:has-dict-subclass")
             add(f"cv {conv} {etm} {enc_type(t)} {venc}", "coerce_input_value", inp, showres(rc))
             add(f"vv {conv} {etm} {enc_type(t)} {venc}", "validate_input_value", inp, ve)
             litdata = w.unnode(rl[1]) if rl[0] == "ok" else None
@@ -1005,8 +1193,10 @@ def explore(ctx) -> Report:
         f"{chunks * n_maps} generated type maps (5 scalars, 3 enums incl. int/bool/list/Undefined internal values, 1-4 possibly "
         f"recursive input objects with value/literal/legacy defaults, one OneOf object; ~10% deliberately ill-formed: invalid "
         f"default, OneOf default, enum value None) x {per_map} (type expression, value, literal, variable map) tuples each; values "
-        "mostly valid with seeded corruption from a 42-element zoo (bool/int/float edges, huge ints, nan/inf, Undefined, wrong "
-        "containers, unknown keys); literals derived from values with seeded mutation (variables, nulls, duplicates, unknown "
+        "mostly valid with seeded corruption from a 64-element zoo (bool/int/float edges, huge ints, nan/inf, Undefined, wrong "
+        "containers, unknown keys) and, at every list/object position, seeded substitution of the container by a tuple / set / "
+        "frozenset / generator / deque / user iterable, by a non-dict Mapping (MappingProxyType, ChainMap, UserDict, user Mapping: "
+        "must be rejected) or by a dict subclass (OrderedDict, defaultdict, subclass with __missing__: must be accepted); literals derived from values with seeded mutation (variables, nulls, duplicates, unknown "
         "fields, out-of-range numbers); variable maps from the real get_variable_values. non-trivial = coerced result is a dict or list"
     )
     return rep
